@@ -193,16 +193,6 @@ theorem loop_mono (cfg : Cfg) : ∀ (fuel : Nat) (cs : List Char) (st : State) (
 
 /-! ### arguments of the reported positions, names and types -/
 
-/-- `args[n]` / `kwargs[name]` -/
-def lookupArg (a : Args) : Key → Option Val
-  | .idx n => a.pos[n]?
-  | .name nm => (a.kw.find? (·.1 == nm)).map (·.2)
-
-/-- an `int` argument is a code point (what `c` needs; the type sets cannot express it) -/
-def chrOK : Val → Prop
-  | .int n => 0 ≤ n ∧ n ≤ 0x10ffff
-  | _ => True
-
 /-- the arguments provide, under key `k`, a value of one of the types of `x` -/
 def Avail (a : Args) (k : Key) (x : Arg) : Prop := ∃ v, lookupArg a k = some v ∧ hasType x.types v = true ∧ chrOK v
 
@@ -212,9 +202,6 @@ def Inv (st : State) (an : AutoNumber) : Prop :=
   | some 0 => an = { state := .init, fieldNumber := 0 }
   | some (n + 1) => an = { state := .auto, fieldNumber := n + 1 }
   | none => an.state = .manual
-
-/-- the specification of the field is not one of the two typing gaps -/
-def NoQuirk (f : Field) : Prop := ∀ sf, scanSpec f.spec = some sf → sf.quirk = false
 
 theorem flat_name {nm : List Char} (h : NameText topBr nm) (hf : ∀ c ∈ nm, c ≠ '.' ∧ c ≠ '[') : DigitsText nm ∨ IdentText nm := by
   obtain ⟨hd, tl, rfl, hh, ht⟩ := h
@@ -489,11 +476,6 @@ theorem loop_format {cfg : Cfg} (hcfg : cfg.ssizeMax ≤ 2 ^ 31 - 1) (a : Args) 
 
 /-! ### the reported signature -/
 
-/-- arguments with the reported positions, names and types: under every key of `argument_map` a value of one of the types
-    reported for it (an `int` being a code point) -/
-def Matches (r : Result) (a : Args) : Prop :=
-  ∀ k as, (k, as) ∈ r.argMap → ∃ v, lookupArg a k = some v ∧ (∀ x ∈ as, hasType x.types v = true) ∧ chrOK v
-
 theorem hasType_inter {a b : TySet} {v : Val} (h : hasType (a.inter b) v = true) : hasType a v = true ∧ hasType b v = true := by
   cases v <;> simpa [hasType, TySet.inter] using h
 
@@ -530,8 +512,7 @@ theorem unify_mem (s : List Char) : ∀ (m0 m : List (Key × List Arg)), unify s
 /-- `flat_formats` (partial: without the two typing gaps), for any `SSIZE_MAX` up to 2^31-1 -/
 theorem parseWith_flat_formats {cfg : Cfg} (hcfg : cfg.ssizeMax ≤ 2 ^ 31 - 1) (s : List Char) (r : Result) (a : Args)
     (h : parseWith cfg s = .ok r)
-    (hflat : ∀ chunks, markup s = .ok chunks → ∀ f ∈ chunkFields chunks, f.flat = true ∧ NoQuirk f)
-    (hm : Matches r a) : format s a = .ok () := by
+    (hflat : Flat s) (hnq : QuirkFree s) (hm : Matches r a) : format s a = .ok () := by
   simp only [parseWith] at h
   split at h
   · cases h
@@ -553,6 +534,6 @@ theorem parseWith_flat_formats {cfg : Cfg} (hcfg : cfg.ssizeMax ≤ 2 ^ 31 - 1) 
           exact ⟨x, hx, rfl⟩
         exact (foldl_inter_le as _ v hc).2 x hx
       · intro f hf
-        exact hflat chunks hmk f (by rw [hfs]; exact hf)
+        exact ⟨hflat chunks hmk f (by rw [hfs]; exact hf), hnq chunks hmk f (by rw [hfs]; exact hf)⟩
 
 end I18n.PyBrace
